@@ -21,7 +21,7 @@ def sh(cmd, cwd=None, timeout=3600):
 def main():
     pid, k = sys.argv[1], sys.argv[2]
     checks = [c for c in sys.argv[3:] if not c.startswith("--")] or [pid]
-    wt = "/tmp/wt/%s" % pid
+    wt = os.environ.get("SEEDRUN_WT") or "/tmp/wt/%s" % pid
     if k.startswith("r") and ":" in k:
         rnd, kk = k[1:].split(":")
         src = "%s/SEEDED%s/%s" % (wt, rnd, kk)
@@ -30,6 +30,8 @@ def main():
         src = "%s/SEEDED/%s" % (wt, k)
         dst = "%s/seeded/%s-%s" % (VERIF, pid, k)
     os.makedirs(dst, exist_ok=True)
+    if not os.path.isdir(src):
+        src = dst           # a kept change: confirm and run what is stored under /verif/seeded
     prev = {}
     keep = {}
     if os.path.exists(os.path.join(dst, "meta.json")):
@@ -39,7 +41,7 @@ def main():
             keep = {k_: v_ for k_, v_ in old.items() if k_.startswith("verif_")}
         except Exception:
             prev = {}
-    if os.path.isdir(src):
+    if src != dst:
         for f in os.listdir(src):
             shutil.copy(os.path.join(src, f), os.path.join(dst, f))
     meta = json.load(open(os.path.join(dst, "meta.json")))
